@@ -100,6 +100,8 @@ func judge(c Case) (*vf.Failure, string) {
 		switch {
 		case rr.Signal != "":
 			problem = "killed by signal " + rr.Signal
+		case ddp.IsSegfault(rr):
+			problem = "segmentation fault (reported by the runtime's signal handler as 'Laufzeitfehler: Segmentation fault')"
 		case rr.Stdout != c.Expect:
 			problem = "standard output differs: " + firstDiff(c.Expect, rr.Stdout)
 		case rr.Exit != wantExit:
@@ -109,7 +111,7 @@ func judge(c Case) (*vf.Failure, string) {
 		}
 		if problem != "" {
 			sig := "C01:output"
-			if rr.Signal != "" {
+			if rr.Signal != "" || ddp.IsSegfault(rr) {
 				sig = "C01:signal"
 			} else if rr.Exit != wantExit {
 				sig = "C01:exit-status"
